@@ -8,7 +8,7 @@ small length realised as unit-frame segments (exhaustive in the thorough tier).
 Oracle (the property itself on the real code): an independent computation of every score from the two
 frame-label sequences (own sampler, collections.Counter, fractions, math.log / math.comb), and the stated
 identities (vmeasure == nce(marginal=True), case-insensitivity, MI symmetry, V = harmonic mean, ARI = 1 on
-coinciding partitions).
+coinciding partitions, _entropy = -sum p log p, V-measure scores = MI/H(est) and MI/H(ref)).
 """
 import math
 from collections import Counter
@@ -36,13 +36,16 @@ ASSUMPTIONS = [
     "max(H)-EMI at rounding level, i.e. both partitions all-singletons) are compared through numerator and "
     "tolerance 1e-9 + 4e-16/|denominator| (DESIGN 2.3); they are not 'valid' inputs of the property",
     "both annotations have exactly equal end times (np.allclose-equal but different ends are outside the model)",
-    "AMI's expected-MI term is transliterated in the model (compared, and re-computed independently by the "
-    "oracle from exact hypergeometric probabilities), not derived from a closed form",
+    "AMI's expected-MI term: the model's transliterated loop is proved equal (over the reals) to the hypergeometric "
+    "expectation with binomial coefficients (emi_textbook); the oracle re-computes that expectation independently "
+    "from exact hypergeometric probabilities",
 ]
 UNPROVED = [
-    "AMI: the expected-MI triple loop is transliterated and compared (model vs code, and vs an independent "
-    "hypergeometric computation), not proved equal to a closed form",
-    "NMI / NCE / V textbook forms over the reals (only MI has mi_textbook); entropies are compared numerically",
+    "the textbook forms of the entropy-based scores (entropy_textbook, nmi_textbook, nce_textbook, v_textbook, "
+    "emi_textbook, ami_textbook) are theorems about the model at the real-number instance; that binary64 "
+    "evaluation of the same expressions stays within 1e-9 of the real value is compared, not proved",
+    "the hypergeometric weights in emi_textbook are not proved to sum to 1 (Vandermonde) - not needed for the "
+    "equality of the code's loop with the textbook expectation",
     "frames_are_labelAt: tie of the frame sampler to the C13 interval denotation is by lemma labelAtFrame_eq "
     "(sorted, non-overlapping rows) and correspondence, not yet by a theorem about whole segmentations",
 ]
@@ -708,6 +711,11 @@ def check_mi(inp):
                 "clips rounding noise at 0" % (got[0], got[2]))
     hr, he = tb_entropy(a.values(), n), tb_entropy(b.values(), n)
     kr, ke = len(a), len(b)
+    # entropy_textbook on the real helper: _entropy(labels) = -sum p log p  (Lean: entropy_textbook)
+    for side, seq, h in (("reference", yr, hr), ("estimate", ye, he)):
+        eh = float(S._entropy(np.array([str(x) for x in seq])))
+        if not close(eh, h):
+            return "_entropy(%s frame labels) = %r, definition -sum p log p gives %r" % (side, eh, h)
     if kr == 1 and ke == 1:
         if got[1] != 1.0 or got[2] != 1.0:
             return "AMI/NMI of two one-cluster partitions should be 1 by convention, got %r" % (got,)
@@ -791,6 +799,18 @@ def check_vmeasure(inp):
     m = tuple(map(float, _call(S.nce, ref, est, fs, beta=float(beta), marginal=True)))
     if v != m and not all(math.isnan(x) and math.isnan(y) or x == y for x, y in zip(v, m)):
         return "vmeasure %r differs from nce(marginal=True) %r" % (v, m)
+    # chain rule form (Lean: v_is_mi_over_entropy): the two scores are MI/H(est) and MI/H(ref)
+    yr, ye = sample_frames(ref, fs), sample_frames(est, fs)
+    n = len(yr)
+    if n:
+        nij, a, b = table(yr, ye)
+        mi = tb_mi(nij, a, b, n)
+        want_over = mi / tb_entropy(b.values(), n) if len(b) > 1 else 0.0
+        want_under = mi / tb_entropy(a.values(), n) if len(a) > 1 else 0.0
+        if not close(v[0], want_over):
+            return "vmeasure over-clustering score = %r, MI/H(est) gives %r" % (v[0], want_over)
+        if not close(v[1], want_under):
+            return "vmeasure under-clustering score = %r, MI/H(ref) gives %r" % (v[1], want_under)
     return None
 
 
